@@ -12,7 +12,12 @@ Three independent parties look at one history of operations:
   the cache is organised (stage O).
 
 History ops (JSON-able):
-    ["D", now, [rec...], [[phase, lid, kind, target]...]]   response datagram (+ scripted listener reactions; kind 1 = add, 0 = remove)
+    ["D", now, [rec...], [[code, lid, kind, target, ...]...]]   response datagram (+ scripted listener reactions; kind 1 = add, 0 = remove,
+                                                             2 = add WITH a question: [code, lid, 2, target, dt, qname, qtype, qclass] -- the clock
+                                                             reads now+dt inside that async_add_listener call; code = 10*depth + phase: phase 1 =
+                                                             async_update_records, 2 = ..._complete; depth 0 = the datagram's own rounds, depth d+1 =
+                                                             the callbacks run by an `add with a question` of a depth-d callback: its purge's two
+                                                             rounds and the replay to the new listener)
     ["X", now]                                               periodic purge
     ["LA", id] / ["LR", id]                                  add / remove a recording listener
     ["BA", id, now, [type...]] / ["BR", id]                  create / cancel a browser
@@ -259,35 +264,63 @@ class _Recording(RecordUpdateListener):
             n, o = u[0], u[1]        # the legacy `new, old = update` protocol (RecordUpdate.__getitem__)
             if n is not u.new or o is not u.old:
                 raise RuntimeError("RecordUpdate.__getitem__ disagrees with .new/.old")
-        w.log.append(("u", self.lid, int(now), pairs, w.snapshot()))
+        if w.depth == 0:
+            w.outer = 1
+        w.log.append(("u", self.lid, int(now), pairs, w.snapshot(), w.depth))
         self._react(1)
 
     def async_update_records_complete(self):
         w = self.w
-        w.log.append(("c", self.lid, None, None, w.snapshot()))
+        if w.depth == 0:
+            w.outer = 2
+        w.log.append(("c", self.lid, None, None, w.snapshot(), w.depth))
         self._react(2)
 
     def _react(self, phase):
         if self.lid is None:
             return
         w = self.w
+        code = 10 * w.depth + phase
         keep = w.zc.notified  # async_remove_listener notifies too; `n` reports async_updates_complete(new) only
-        for ph, lid, kind, target in w.reacts:
-            if ph == phase and lid == self.lid:
+        for r in list(w.reacts):
+            ph, lid, kind, target = r[0], r[1], r[2], r[3]
+            if ph == code and lid == self.lid:
                 t = w.listener(target)
-                if kind:
+                if kind == 2:
+                    # async_add_listener WITH a question, the clock reading now0 + dt: purge (with its own two listener rounds), add, replay
+                    reading = w.now0 + r[4]
+                    entry = [ph, lid, 2, target, w.outer, reading]
+                    w.executed.append(entry)
+                    w.log.append(("a", self.lid, reading, entry, None, w.depth))
+                    saved = _CLOCK[0]
+                    _CLOCK[0] = float(reading)
+                    w.depth += 1
+                    try:
+                        w.rm.async_add_listener(t, DNSQuestion(r[5], r[6], r[7]))
+                    except BaseException:
+                        w.failed.append(entry)
+                        w.zc.notified = keep
+                        raise
+                    finally:
+                        w.depth -= 1
+                        _CLOCK[0] = saved
+                elif kind:
                     w.rm.async_add_listener(t, None)
-                    w.executed.append((ph, lid, 1, target))
+                    entry = [ph, lid, 1, target, w.outer, None]
+                    w.executed.append(entry)
+                    w.log.append(("a", self.lid, None, entry, None, w.depth))
                 else:
                     # no guard: removing a listener that is not registered is what a browser's `_async_cancel` or a lookup's
                     # `finally` does when somebody else removed it first
+                    entry = [ph, lid, 0, target, w.outer, None]
                     try:
                         w.rm.async_remove_listener(t)
                     except BaseException:
-                        w.failed.append((ph, lid, 0, target))
+                        w.failed.append(entry)
                         w.zc.notified = keep
                         raise
-                    w.executed.append((ph, lid, 0, target))
+                    w.executed.append(entry)
+                    w.log.append(("a", self.lid, None, entry, None, w.depth))
         w.zc.notified = keep
 
 
@@ -301,7 +334,8 @@ class _Legacy(RecordUpdateListener):
         return 6
 
     def update_record(self, zc, now, record):
-        self.w.legacy.append(C.rec_line(record))
+        if self.w.depth == 0:       # nested purge rounds (an `add with a question` from a callback) reach the shim too: not compared
+            self.w.legacy.append(C.rec_line(record))
 
 
 class _SvcListener(ServiceListener):
@@ -435,6 +469,9 @@ class World:
         self.executed = []
         self.failed = []
         self.cbs2 = []
+        self.depth = 0      # nesting depth of the callback being run (0 = the op's own rounds)
+        self.outer = 0      # phase (1 update / 2 complete) of the depth-0 callback being run
+        self.now0 = None    # arrival time of the datagram being ingested
 
     def listener(self, lid):
         l = self._listeners.get(lid)
@@ -487,6 +524,7 @@ class World:
         self.cbs2 = []
         self.legacy = []
         self.zc.notified = 0
+        self.depth, self.outer = 0, 0
         k = op[0]
         obs = {"k": k, "err": None}
         try:
@@ -500,6 +538,7 @@ class World:
                 if [C.rec_line(r) for r in got] != want:
                     raise HarnessError("wire path changed the datagram: %r -> %r" % (want, [C.rec_line(r) for r in got]))
                 self.reacts = [tuple(r) for r in op[3]]
+                self.now0 = now
                 try:
                     self.rm.async_updates_from_response(msg)
                 finally:
@@ -547,19 +586,21 @@ class World:
         except Exception as ex:  # noqa: BLE001 -- an exception out of the library is an observation
             obs["err"] = type(ex).__name__
             obs["errmsg"] = repr(ex)[:200]
-        # what the hidden spy listener saw = what any listener is told
-        spy_u = [e for e in self.log if e[0] == "u" and e[1] is None]
-        spy_c = [e for e in self.log if e[0] == "c" and e[1] is None]
+        # what the hidden spy listener saw = what any listener is told (depth 0: the op's own rounds)
+        spy_u = [e for e in self.log if e[0] == "u" and e[1] is None and e[5] == 0]
+        spy_c = [e for e in self.log if e[0] == "c" and e[1] is None and e[5] == 0]
         obs["spy_u"] = len(spy_u)
         obs["spy_c"] = len(spy_c)
         obs["u"] = spy_u[0][3] if spy_u else None
         obs["unow"] = spy_u[0][2] if spy_u else None
         obs["s1"] = spy_u[0][4] if spy_u else None
         obs["s2"] = spy_c[0][4] if spy_c else None
-        obs["c1"] = sorted(e[1] for e in self.log if e[0] == "u" and e[1] is not None)
-        obs["c2"] = sorted(e[1] for e in self.log if e[0] == "c" and e[1] is not None)
-        obs["calls"] = [[e[0], e[1], e[3], e[4], e[2]] for e in self.log if e[1] is not None]
-        obs["order"] = [[e[0], e[1]] for e in self.log]
+        obs["c1"] = sorted(e[1] for e in self.log if e[0] == "u" and e[1] is not None and e[5] == 0)
+        obs["c2"] = sorted(e[1] for e in self.log if e[0] == "c" and e[1] is not None and e[5] == 0)
+        obs["calls"] = [[e[0], e[1], e[3], e[4], e[2]] for e in self.log if e[1] is not None and e[0] in "uc" and e[5] == 0]
+        obs["order"] = [[e[0], e[1]] for e in self.log if e[0] in "uc" and e[5] == 0]
+        # everything in execution order, nested callbacks included: [kind u/c/a, lid, now-or-reading, pairs-or-act, snapshot, depth]
+        obs["events"] = [[e[0], e[1], e[2], e[3], e[4], e[5]] for e in self.log]
         obs["executed"] = [list(x) for x in self.executed]
         obs["failed"] = [list(x) for x in self.failed]
         obs["legacy"] = list(self.legacy)
@@ -617,12 +658,35 @@ def _ids(l):
     return sep(",", [str(x) for x in sorted(l)])
 
 
+def render_nest(obs):
+    """what happened below depth 0 (callbacks run by an `add with a question` from inside a callback), in execution order:
+    Q<d>:<lid>><target>@<reading> the act itself | P<d>[records] a non-empty purge (= the nested update call of the listener registered
+    throughout) | u<d>:<lid> / c<d>:<lid> nested round calls | R<d>:<lid>[records] the replay's update call"""
+    out = []
+    for kind, lid, t, x, _, depth in obs.get("events") or []:
+        if kind == "a":
+            if x[2] == 2:
+                out.append("Q%d:%d>%d@%d" % (depth, lid, x[3], t))
+        elif depth >= 1:
+            if kind == "u":
+                if lid is None:
+                    out.append("P%d[%s]" % (depth, sep(",", [n for n, _ in x])))
+                elif x and all(o is None for _, o in x):
+                    out.append("R%d:%d[%s]" % (depth, lid, sep(",", [n for n, _ in x])))
+                else:
+                    out.append("u%d:%d" % (depth, lid))
+            elif lid is not None:
+                out.append("c%d:%d" % (depth, lid))
+    return sep(";", out)
+
+
 def render(obs):
     k = obs["k"]
     if obs["err"] and k == "D" and obs["u"] is not None:
         pairs = sep(",", ["%s>%s" % (n, "~" if o is None else o) for n, o in obs["u"]])
-        return "D err=%s u=%s c1=%s s1=%s c2=%s s2=%s %s" % (obs["err"], pairs, _ids(obs["c1"]), obs["s1"] if obs["s1"] is not None else "!",
-                                                           _ids(obs["c2"]), obs["s2"] if obs["s2"] is not None else "!", render_readers(obs["R"]))
+        return "D err=%s u=%s c1=%s s1=%s c2=%s s2=%s nest=%s ls=%s %s" % (
+            obs["err"], pairs, _ids(obs["c1"]), obs["s1"] if obs["s1"] is not None else "!",
+            _ids(obs["c2"]), obs["s2"] if obs["s2"] is not None else "!", render_nest(obs), _ids(obs["ids"]), render_readers(obs["R"]))
     if obs["err"]:
         return "%s err=%s" % (k, obs["err"])
     if k == "D":
@@ -632,7 +696,8 @@ def render(obs):
             pairs = "!" if obs["u"] is None else sep(",", ["%s>%s" % (n, "~" if o is None else o) for n, o in obs["u"]])
             head = "D u=%s c1=%s s1=%s c2=%s s2=%s" % (pairs, _ids(obs["c1"]), obs["s1"] if obs["s1"] is not None else "!",
                                                     _ids(obs["c2"]), obs["s2"] if obs["s2"] is not None else "!")
-        return "%s n=%d cb=%s %s" % (head, 1 if obs["n"] else 0, render_cb(obs["cb"]), render_readers(obs["R"]))
+        return "%s nest=%s ls=%s n=%d cb=%s %s" % (head, render_nest(obs), _ids(obs["ids"]), 1 if obs["n"] else 0, render_cb(obs["cb"]),
+                                                  render_readers(obs["R"]))
     if k == "X":
         u = "!" if obs["u"] is None else sep(",", ["%s>%s" % (n, "~" if o is None else o) for n, o in obs["u"]])
         return "X u=%s c1=%s c2=%s n=%d cb=%s %s" % (u, _ids(obs["c1"]), _ids(obs["c2"]), 1 if obs["n"] else 0, render_cb(obs["cb"]),
@@ -676,8 +741,10 @@ def build_line(probes, ops):
         if k == "D":
             t += ["D", str(op[1]), str(len(op[2]))] + [spec_line(r, op[1]) for r in op[2]]
             t.append(str(len(op[3])))
-            for ph, lid, kind, tg in op[3]:
-                t += [str(ph), str(lid), "1" if kind else "0", str(tg)]
+            for r in op[3]:
+                t += [str(r[0]), str(r[1]), str(int(r[2])), str(r[3])]
+                if r[2] == 2:
+                    t += [str(op[1] + r[4]), C.hs(r[5]), str(r[6]), str(r[7])]
         elif k == "X":
             t += ["X", str(op[1])]
         elif k in ("LA", "LR", "BR"):
@@ -971,6 +1038,13 @@ def shrink(ops, still_fails, max_evals=250):
             cand[i] = ["D", cur[i][1], cur[i][2], []]
             if ok(cand):
                 cur = cand
+        j = len(cur[i][3]) - 1
+        while j >= 0 and len(cur[i][3]) > 1:
+            cand = [list(o) for o in cur]
+            cand[i] = ["D", cur[i][1], cur[i][2], cur[i][3][:j] + cur[i][3][j + 1:]]
+            if ok(cand):
+                cur = cand
+            j -= 1
     return cur
 
 
@@ -1070,10 +1144,44 @@ def gen_datagram(rng, vocab, ref, opts):
     return recs
 
 
-def gen_reacts(rng, registered, pool, p_absent=0.0):
+QUESTIONS = [(TX, 12, 1), (TX, 255, 1), ("_X._TCP.local.", 12, 1), ("a._x._tcp.local.", 255, 1), ("a._x._tcp.local.", 33, 1),
+             ("h.local.", 1, 1), ("h.local.", 255, 1), (TZ, 12, 1), ("absent.local.", 12, 1), (TY, 12, 1)]
+QUESTION_DT = [0, 0, 0, 1, 999, 1000, 1001, 2000, 10000]
+
+
+def gen_question_react(rng, registered, pool, nested=False):
+    """one `add a listener WITH a question` reaction (+ sometimes reactions inside the callbacks it triggers)"""
+    live = sorted(registered) or list(pool)
+    lid = rng.choice(live)
+    ph = rng.choice([1, 1, 1, 2])
+    q = rng.choice(QUESTIONS)
+    out = [[ph, lid, 2, rng.choice(pool), rng.choice(QUESTION_DT), q[0], q[1], q[2]]]
+    if nested:
+        # something happens inside the purge's own rounds / the replay (depth 1): plain add / remove, or a second `add with a question`
+        for _ in range(rng.choice([1, 1, 2])):
+            l2 = rng.choice(pool)
+            code = 10 + rng.choice([1, 2])
+            k = rng.choice([0, 1, 2])
+            if k == 2:
+                q2 = rng.choice(QUESTIONS)
+                out.append([code, l2, 2, rng.choice(pool), rng.choice(QUESTION_DT), q2[0], q2[1], q2[2]])
+            else:
+                out.append([code, l2, k, rng.choice(pool)])
+    return out
+
+
+def gen_reacts(rng, registered, pool, p_absent=0.0, p_question=0.0):
     """scripted reactions.  Mostly pairwise distinct targets; sometimes the patterns in which a listener is removed although it
-    is not (any more) registered: A removes B and B removes itself, the same listener removed twice, a never-added one removed"""
+    is not (any more) registered: A removes B and B removes itself, the same listener removed twice, a never-added one removed;
+    with p_question: a listener registered WITH a question from inside a callback (purge + nested rounds + replay)"""
     x = rng.random()
+    if p_question and rng.random() < p_question:
+        out = gen_question_react(rng, registered, pool, nested=rng.random() < 0.3)
+        if rng.random() < 0.4:
+            out += gen_reacts(rng, registered, pool, p_absent, 0.0)
+        if rng.random() < 0.2:
+            out += gen_question_react(rng, registered, pool)
+        return out
     if x < p_absent and len(pool) >= 2:
         ph = rng.choice([1, 2])
         live = sorted(registered) or list(pool)
@@ -1135,7 +1243,7 @@ def gen_history(rng, depth, opts):
                 registered.add(lid)
         else:
             recs = gen_datagram(rng, vocab, ref, opts)
-            reacts = gen_reacts(rng, registered, pool, opts.get("p_remove_absent", 0.0)) if pool and opts.get("reacts") else []
+            reacts = gen_reacts(rng, registered, pool, opts.get("p_remove_absent", 0.0), opts.get("p_question", 0.0)) if pool and opts.get("reacts") else []
             ops.append(["D", now, recs, reacts])
             ref.datagram(now, recs)
             # the steering copy of the listener set is approximate (reactions are not tracked); that is fine
